@@ -369,3 +369,89 @@ M("C20", "v1 --tag-num silently ignored", F, "v1version.py", "    if tag_num:\n 
 M("C20", "v1 minor keeps patch", F, "v1version.py", "cur_vinfo = cur_vinfo._replace(minor=cur_vinfo.minor + 1, patch=0)", "cur_vinfo = cur_vinfo._replace(minor=cur_vinfo.minor + 1)", "--minor")
 M("C20", "pep440_tag rendered without number", F, "v1version.py", "kwargs['pep440_tag'] = version.PEP440_TAG_BY_TAG[release_tag] + \"0\"", "kwargs['pep440_tag'] = \".\" + version.PEP440_TAG_BY_TAG[release_tag]", "pep440")
 M("C20", "twin: predicates factored", S, "cli.py", "    is_new_pattern = \"{\" not in raw_pattern and \"}\" not in raw_pattern\n\n    try:", "    is_new_pattern = not (\"{\" in raw_pattern or \"}\" in raw_pattern)\n\n    try:")
+
+# =============================================================================== twins for the rules added after round 2
+M("C09", "twin: get_tags handler binds the exception", S, "vcs.py", '''    except OSError:
+        logger.debug("No vcs found")
+        return []''', '''    except OSError as ex:
+        logger.debug(f"No vcs found: {ex}")
+        return []''')
+M("C01", "twin: get_tags logs and re-raises a failed listing", S, "vcs.py", '''    except OSError:
+        logger.debug("No vcs found")
+        return []''', '''    except sp.CalledProcessError:
+        logger.error("listing tags failed")
+        raise
+    except OSError:
+        logger.debug("No vcs found")
+        return []''')
+M("C07", "twin: toml reader copies the file_patterns table", S, "config.py", '''    _set_raw_config_defaults(raw_cfg)
+
+    return raw_cfg
+
+
+def _iter_glob_expanded_file_patterns(''', '''    _set_raw_config_defaults(raw_cfg)
+    raw_cfg['file_patterns'] = {path: list(raw_patterns) for path, raw_patterns in raw_cfg['file_patterns'].items()}
+
+    return raw_cfg
+
+
+def _iter_glob_expanded_file_patterns(''')
+M("C11", "twin: membership spelled with any(==)", S, "vcs.py", '''            if filepath.strip() in required_files or status != "??"''',
+  '''            if any(filepath.strip() == req for req in required_files) or status != "??"''')
+M("C11", "twin: marker tested with lexists", S, "vcs.py", '''        if not os.path.exists(f".{self.name}"):''', '''        if not os.path.lexists(f".{self.name}"):''')
+M("C12", "twin: template selection with swapped branches", S, "cli.py", '''    if commit_message is None:
+        commit_msg_template = cfg.commit_message
+    else:
+        commit_msg_template = _sub_msg_template(commit_message)
+''', '''    if commit_message is not None:
+        commit_msg_template = _sub_msg_template(commit_message)
+    else:
+        commit_msg_template = cfg.commit_message
+''')
+M("C12", "twin: tag template as mirrored conditional expression", S, "cli.py",
+  '''    tag_msg_template = cfg.tag_message if tag_message is None else _sub_msg_template(tag_message)''',
+  '''    tag_msg_template = _sub_msg_template(tag_message) if tag_message is not None else cfg.tag_message''')
+M("C13", "twin: trailing newline trimmed in the return", S, "v2rewrite.py", '''    full_diff = full_diff.rstrip("\\n")
+    return full_diff''', '''    return full_diff.rstrip("\\n")''')
+M("C13", "twin: a log line for dry runs before the diff", S, "cli.py", '''    if dry or verbose >= 2:
+        _print_diff(cfg, new_version)
+''', '''    if dry:
+        logger.info("dry run, no files are changed")
+
+    if dry or verbose >= 2:
+        _print_diff(cfg, new_version)
+''')
+M("C16", "twin: local segment conditional mirrored", S, "setuptools_v65_version.py", '''            part.lower() if not part.isdigit() else int(part)''',
+  '''            int(part) if part.isdigit() else part.lower()''')
+M("C17", "twin: reset loop as conditional expression", S, "v2version.py", '''        if value.isdigit():
+            cur_kwargs[field] = int(value)
+        else:
+            cur_kwargs[field] = value
+''', '''        cur_kwargs[field] = int(value) if value.isdigit() else value
+''')
+M("C18", "twin: INI pattern lines as one comprehension", S, "config.py", '''        maybe_patterns = (line.strip() for line in patterns_str.splitlines())
+        patterns       = [p for p in maybe_patterns if p]
+''', '''        patterns = [line.strip() for line in patterns_str.splitlines() if line.strip()]
+''')
+M("C19", "twin: newline prefix as conditional expression", S, "config.py", '''    if ctx.config_filepath.exists():
+        cfg_content = "\\n" + cfg_content
+''', '''    prefix      = "\\n" if ctx.config_filepath.exists() else ""
+    cfg_content = prefix + cfg_content
+''')
+M("C20", "twin: yy via modulo and zfill", S, "v1version.py", '''        kwargs['yy'  ] = str(year)[-2:]''', '''        kwargs['yy'  ] = str(year % 100).zfill(2)''')
+M("C03", "twin: self pattern stored without a local", S, "config.py", '''        raw_version_pattern = _parse_current_version_default_pattern(raw_cfg, raw_cfg_text)
+        raw_cfg['file_patterns'][ctx.config_rel_path] = [raw_version_pattern]''',
+  '''        raw_cfg['file_patterns'][ctx.config_rel_path] = [_parse_current_version_default_pattern(raw_cfg, raw_cfg_text)]''')
+M("C10", "twin: vcs handle looked up under an equivalent nested test", S, "cli.py", '''    if cfg.commit:
+        try:
+            vcs_api = vcs.get_vcs_api()
+        except OSError:
+            logger.warning("Version Control System not found, skipping commit.")
+''', '''    if not cfg.commit:
+        pass
+    else:
+        try:
+            vcs_api = vcs.get_vcs_api()
+        except OSError:
+            logger.warning("Version Control System not found, skipping commit.")
+''')
